@@ -11,6 +11,8 @@ import math
 
 import numpy as np
 
+from .. import harness as H
+
 from ..oracles import spi as O
 
 PID = "C07"
@@ -249,13 +251,13 @@ def shard_cube(spec, R):
             cube[k // nx, k % nx] = xx
         c0 = int(rng.integers(0, nt - 2))
         c1 = int(rng.integers(c0 + 2, nt + 1))
-        if it % 2 == 0:
+        if H.pick(it, 3, 2) == 0:
             c0, c1 = 0, nt
         time = pd.date_range("2000-01-01", periods=nt, freq="MS")
         da = xr.DataArray(cube, dims=["y", "x", "time"], coords={"time": time}, attrs={"nodata": nodata})
-        order = [("y", "x", "time"), ("time", "y", "x"), ("y", "time", "x")][it % 3]
+        order = [("y", "x", "time"), ("time", "y", "x"), ("y", "time", "x")][H.pick(it, 1, 3)]
         # the placeholder reaches spi() by attribute, by an explicit argument, or by an argument overriding another attribute
-        how = (it // 3) % 3
+        how = H.pick(it, 2, 3)
         kwn = {}
         if how == 1:
             kwn["nodata"] = nodata
